@@ -148,15 +148,15 @@ type guardCase struct {
 }
 
 type guardSpec struct {
-	rule      string
-	id        string // position independent construct key
-	what      string
-	root      *ssa.Function
-	commit    func(e *Effect, in ssa.Instruction) bool
-	commitTxt string
-	common    func(c *caseRule) // valuation common to all cases (e.g. a fixed bid type)
-	cases     []guardCase
-	atoms     []string // atoms that must have decided something in at least one case (vacuity control)
+	rule        string
+	id          string // position independent construct key
+	what        string
+	root        *ssa.Function
+	commit      func(e *Effect, in ssa.Instruction) bool
+	commitTxt   string
+	common      func(c *caseRule) // valuation common to all cases (e.g. a fixed bid type)
+	cases       []guardCase
+	atoms       []string // atoms that must have decided something in at least one case (vacuity control)
 	consequence string
 }
 
